@@ -13,6 +13,7 @@ from ConfigSpace.util import deactivate_inactive_hyperparameters
 
 from deephyper.evaluator import HPOJob
 from deephyper.hpo._search import Search
+from deephyper.skopt.space.space import drop_inactive_values
 
 
 def get_inactive_value_of_hyperparameter(hp):
@@ -132,7 +133,9 @@ class RegularizedEvolution(Search):
                 # choice below does not depend on the hash seed of the process
                 active_hyperparameter_names = sorted(
                     space.get_active_hyperparameters(
-                        deactivate_inactive_hyperparameters(parent_sample.copy(), space)
+                        deactivate_inactive_hyperparameters(
+                            drop_inactive_values(parent_sample, space), space
+                        )
                     )
                 )
 
@@ -146,6 +149,7 @@ class RegularizedEvolution(Search):
                     hp_value = hp.rvs(size=None, random_state=space.random)
 
                     mutated_sample[hp_name] = hp_value
+                    mutated_sample = drop_inactive_values(mutated_sample, space)
                     try:
                         child_sample = dict(
                             deactivate_inactive_hyperparameters(mutated_sample, space)
